@@ -32,6 +32,9 @@ RANKS = {
     "(1,2)": (S("D"), S("S", "D"), S("S")),
     "(2,2)": (S("F", "D"), S("S", "D"), S("S", "F")),
     "(≥3,≥3)": (S("F", "D", ell=True), S("S", "D", ell=True), S("S", "F", ell=True)),
+    "(3,3)": (S("Bt", "F", "D"), S("Bt", "S", "D"), S("Bt", "S", "F")),
+    "(3,2)": (S("Bt", "F", "D"), S("S", "D"), S("Bt", "S", "F")),
+    "(2,3)": (S("F", "D"), S("Bt", "S", "D"), S("Bt", "S", "F")),
 }
 
 
@@ -42,7 +45,7 @@ def check(rep, an, tier):
             for trapz in (True, False):
                 f = arr("filters", fs, U_FILTER, ndim=(3 if fs.ell else None))
                 s_ = arr("signals", ss, U_SIGNAL, ndim=(3 if ss.ell else None))
-                d = num("domain", U_LAMBDA, sign="POS") if dom == "scalar" else arr("domain", S("D"), U_LAMBDA, isnum=False)
+                d = num("domain", U_LAMBDA, sign="POS") if dom == "scalar" else arr("domain", S("D"), U_LAMBDA, isnum=False, point=True)
                 d.tags["deg"] = {"domain": 1}
                 cfg = dict(rank=rname, domain=dom, trapz=trapz)
                 res = an.run(CAP, kws=dict(filters=f, signals=s_, domain=d, trapz=flag("trapz", trapz)), config=cfgname(cfg))
@@ -109,6 +112,8 @@ def capture_obligations(rep, res, entry, out, dom, trapz):
     R.rule_type_errors(rep, res, "SHAPE", "R-SHAPE", entry)
     R.rule_type_errors(rep, res, "QTY", "R-QTY", entry)
     R.rule_no_global_state(rep, res, entry)
+    R.rule_dtype_casts(rep, res, entry)
+    gradient_weights(rep, res, entry)
     ints = res.events("integrate")
     if dom == "array" or trapz:
         if not ints:
@@ -170,3 +175,13 @@ def integral_obligations(rep, res, dom, keep, axis):
                   config=res.config, msg=f"integrates along {a}, requested {axis}")
     R.rule_type_errors(rep, res, "SHAPE", "R-SHAPE", entry)
     R.rule_no_global_state(rep, res, entry)
+
+
+def gradient_weights(rep, res, entry):
+    """np.gradient(domain) is a central-difference step, not a trapezoid weight vector: its end weights are full steps"""
+    for ev in res.events("np_gradient"):
+        a = ev.d["arg"]
+        if "domain" in a.flat().data or "self.domain" in a.flat().data:
+            rep.violated("R-FLOW", "trapezoid end weights are half steps", where=ev.loc, construct=ev.text(), entry=entry, config=res.config,
+                         msg="np.gradient(domain) gives (x[i+1]-x[i-1])/2 in the interior — the trapezoid weight — but FULL steps at both ends; "
+                             "used as quadrature weights it double-counts the first and last sample")
